@@ -5,7 +5,7 @@ Import ListNotations.
 Open Scope string_scope.
 
 
-(* saml2/sigver.py:RSACrypto.get_signer, lines 574-582 *)
+(* saml2/sigver.py:RSACrypto.get_signer, lines 579-587 *)
 Definition src2_get_signer (signer_algs_ext : pyval) (v_self : pyval) (v_sigalg : pyval) (v_sigkey : pyval) : pyval :=
   let v_signer := PErr in
   (py_bindh (fun n_5 => (if exc_matches n_5 ["KeyError"]
@@ -13,11 +13,11 @@ Definition src2_get_signer (signer_algs_ext : pyval) (v_self : pyval) (v_sigalg 
    else (PExc n_5))) (p2_getitem signer_algs_ext v_sigalg) (fun v_signer =>
    (py_bind (p2_attr v_signer "digest") (fun a_1 => (py_bind (p2_or v_sigkey (p2_attr v_self "key")) (fun a_2 => (PObj [("__class__", PStr "RSASigner"); ("digest", a_1); ("key", a_2)]))))))).
 
-(* saml2/sigver.py:RSASigner.verify, lines 545-546 *)
+(* saml2/sigver.py:RSASigner.verify, lines 550-551 *)
 Definition src2_signer_verify (key_verify_ext : pyval -> pyval -> pyval -> pyval -> pyval) (v_self : pyval) (v_msg : pyval) (v_sig : pyval) (v_key : pyval) : pyval :=
   (py_bind (p2_or v_key (p2_attr v_self "key")) (fun a_1 => (py_bind v_sig (fun a_2 => (py_bind v_msg (fun a_3 => (py_bind (p2_attr v_self "digest") (fun a_4 => (key_verify_ext a_1 a_2 a_3 a_4))))))))).
 
-(* saml2/sigver.py:RSASigner.sign, lines 542-543 *)
+(* saml2/sigver.py:RSASigner.sign, lines 547-548 *)
 Definition src2_signer_sign (key_sign_ext : pyval -> pyval -> pyval -> pyval) (v_self : pyval) (v_msg : pyval) (v_key : pyval) : pyval :=
   (py_bind (p2_or v_key (p2_attr v_self "key")) (fun a_1 => (py_bind v_msg (fun a_2 => (py_bind (p2_attr v_self "digest") (fun a_3 => (key_sign_ext a_1 a_2 a_3))))))).
 
